@@ -78,6 +78,35 @@ func genC14(seed uint64, tier string) *plan.Plan {
 		}
 		ph.Clients = append(ph.Clients, sc)
 	}
+	if r.Bool(350) {
+		// churn variant: some connections keep toggling their subscription to one hot channel (or a
+		// pattern matching it) while the publishers send to it back to back, with many short pauses
+		// at the scheduling points: a PUBLISH is in progress whenever a subscription is withdrawn
+		p.Yield = plan.YieldSpec{ArmPermille: 700, ParkPermille: 500, MaxUs: int64(Pick(r, 100, 300, 900))}
+		hot := c14Channels[r.Intn(2)]
+		for s := 0; s < nsub && s < 3; s++ {
+			sc := &ph.Clients[s]
+			var tail []plan.Op
+			if n := len(sc.Ops); n > 0 && sc.Ops[n-1].K == "ps.close" {
+				tail, sc.Ops = []plan.Op{sc.Ops[n-1]}, sc.Ops[:n-1]
+			}
+			for i, k := 0, r.Range(8, 30); i < k; i++ {
+				d := int64(Pick(r, 0, 100, 500, 2000))
+				if r.Bool(300) {
+					sc.Ops = append(sc.Ops, plan.Op{K: "ps.psub", Keys: []string{"news.*"}, D: d}, plan.Op{K: "ps.punsub", Keys: []string{"news.*"}, D: int64(Pick(r, 0, 100, 500, 2000))})
+				} else {
+					sc.Ops = append(sc.Ops, plan.Op{K: "ps.sub", Keys: []string{hot}, D: d}, plan.Op{K: "ps.unsub", Keys: []string{hot}, D: int64(Pick(r, 0, 100, 500, 2000))})
+				}
+			}
+			sc.Ops = append(sc.Ops, tail...)
+		}
+		for q := 0; q < npub; q++ {
+			sc := &ph.Clients[nsub+q]
+			for i, k := 0, r.Range(20, 60); i < k; i++ {
+				sc.Ops = append(sc.Ops, plan.Op{K: "ps.pub", Key: hot, Val: fmt.Sprintf("p%d-%03d", q, 100+i), M: r.Intn(n), D: int64(Pick(r, 0, 100, 400, 1500))})
+			}
+		}
+	}
 	// quiescent tail: a last round of messages, then collection and introspection
 	tail := plan.Phase{Name: "tail"}
 	ts := plan.Script{ID: 40, Kind: "ctl"}
@@ -125,6 +154,7 @@ type subIv struct {
 	fromInv uint64 // stamp of the invocation (possibly active after it)
 	to      uint64 // invocation stamp of the withdrawing step (certainly active before it); max = never
 	toRet   uint64 // return stamp of the withdrawing step (possibly active before it)
+	ackAt   uint64 // stamp at which the reader saw the (P)UNSUBSCRIBE acknowledgement frame (0 = none)
 }
 
 func oracleC14(p *plan.Plan, his []plan.Rec, res *plan.Result) {
@@ -167,6 +197,9 @@ func oracleC14(p *plan.Plan, his []plan.Rec, res *plan.Result) {
 				k := fmt.Sprintf("%d/%v/%s", r.Client, pat, name)
 				if iv := active[k]; iv != nil {
 					iv.to, iv.toRet = r.Inv, r.Ret
+					if r.Err == "" && r.TS > 0 {
+						iv.ackAt = uint64(r.TS)
+					}
 					delete(active, k)
 				}
 			}
@@ -203,6 +236,33 @@ func oracleC14(p *plan.Plan, his []plan.Rec, res *plan.Result) {
 				continue
 			}
 			recv[r.Client] = append(recv[r.Client], got{f[0], f[1], f[2], f[3], st})
+		}
+	}
+	// frame order on one connection: once the acknowledgement of UNSUBSCRIBE / PUNSUBSCRIBE for a
+	// subscription has been read, no message for that subscription follows it (until the connection
+	// subscribes to it again)
+	for conn, gs := range recv {
+		for _, g := range gs {
+			name, pattern := g.ch, false
+			if g.kind == "pmessage" {
+				name, pattern = g.pat, true
+			}
+			var ended *subIv
+			covered := false
+			for _, iv := range ivs {
+				if iv.conn != conn || iv.pattern != pattern || iv.name != name {
+					continue
+				}
+				if iv.fromInv <= g.stamp && (iv.ackAt == 0 || g.stamp < iv.ackAt) {
+					covered = true
+				}
+				if iv.ackAt != 0 && g.stamp > iv.ackAt {
+					ended = iv
+				}
+			}
+			if !covered && ended != nil {
+				viol(res, "message-after-unsubscribe", g.kind, "connection %d read %s %q on %s (stamp %d) after the acknowledgement of its %s %q (stamp %d) and before any new subscription to it", conn, g.kind, g.payload, g.ch, g.stamp, map[bool]string{false: "UNSUBSCRIBE", true: "PUNSUBSCRIBE"}[pattern], name, ended.ackAt)
+			}
 		}
 	}
 	// per publish
